@@ -78,12 +78,98 @@ func checkPrecond(t rep.Fataler, c sim.Case, met bool) {
 	rep.Eval(key, lab)
 }
 
+// checkPrecondRetry: the DAG's own preconditions hold when the run is started
+// (a step fails, the run is recorded failed) and no longer hold when that run
+// is retried: the retry is a run of the DAG like any other — no step and no
+// handler may execute, and it reports an error.
+func checkPrecondRetry(t rep.Fataler, c sim.Case) {
+	rep.Begin(ID, "precond-retry", c)
+	snap := agentkit.EnvSnapshot()
+	defer agentkit.RestoreEnv(snap)
+	h, err := agentkit.NewHome("/bin/false")
+	if err != nil {
+		t.Fatalf("home: %v", err)
+	}
+	defer h.Cleanup()
+	const gate = "VERIF_C04_GATE"
+	cond := "preconditions:\n  - condition: \"$" + gate + "\"\n    expected: \"1\"\n"
+	file, _ := h.WriteDAG("preretry", cond+sim.YAML(&c, 0, ""))
+	run := func(scripts map[string]sim.Script, f func() error) (error, []sim.Event, bool) {
+		for k, s := range scripts {
+			s.SelfExit = true
+			scripts[k] = s
+		}
+		w := sim.NewWorld(scripts)
+		done := make(chan error, 1)
+		go func() { done <- f() }()
+		select {
+		case err := <-done:
+			return err, w.Trace(), true
+		case <-time.After(40 * time.Second * time.Duration(sim.LoadFactor())):
+			w.ReleaseAll()
+			return nil, nil, false
+		}
+	}
+	os.Setenv(gate, "1")
+	_, scripts := sim.BuildSteps(&c)
+	var id string
+	_, tr1, ok := run(scripts, func() error {
+		var err error
+		id, _, err = h.Start(context.Background(), file, "")
+		return err
+	})
+	if !ok {
+		rep.Inconclusive("agent run did not end within the bound")
+		return
+	}
+	if len(tr1) == 0 || id == "" {
+		rep.Fail(t, ID, "precond-retry", c, nil, "DAG preconditions are met but nothing was executed")
+	}
+	sf, err := h.NewDataStores().HistoryStore().FindByRequestID(file, id)
+	if err != nil {
+		rep.Fail(t, ID, "precond-retry", c, nil, "the first run is not in the history: %v", err)
+	}
+	if sf.Status.Status.String() != "failed" {
+		// nothing to retry in this case (the failing step was skipped or blocked)
+		rep.Eval("", "dag-preconditions:retry-leg-not-applicable")
+		return
+	}
+	os.Setenv(gate, "0")
+	sc2 := map[string]sim.Script{}
+	for k := range scripts {
+		sc2[k] = sim.Script{}
+	}
+	rerr, tr2, ok := run(sc2, func() error {
+		_, _, _, err := h.Retry(context.Background(), file, id)
+		return err
+	})
+	if !ok {
+		rep.Inconclusive("agent retry did not end within the bound")
+		return
+	}
+	if len(tr2) > 0 {
+		rep.Fail(t, ID, "precond-retry", c, map[string]any{"trace": tr2}, "the DAG's preconditions no longer hold when the failed run is retried, yet %d executor event(s) happened in the retry, first: %s of %q", len(tr2), tr2[0].Kind, tr2[0].Step)
+	}
+	if rerr == nil {
+		rep.Fail(t, ID, "precond-retry", c, nil, "a retry of a DAG whose own preconditions are not met went through without an error")
+	}
+	rep.Eval(rep.Hash("precond-retry|"+c.Key()), "dag-preconditions:unmet-at-retry")
+}
+
 func TestPrecond(t *testing.T) {
 	rapid.Check(t, func(t *rapid.T) {
 		c := sim.Gen(t, sim.GenOpts{MaxSteps: 4, Handlers: true})
 		c.Stop, c.TimeoutP, c.Dry = nil, 0, false
 		for i := range c.Steps {
 			c.Steps[i].SetupFail = false
+		}
+		if rapid.IntRange(0, 2).Draw(t, "retryLeg") == 0 {
+			c.Steps[rapid.IntRange(0, len(c.Steps)-1).Draw(t, "failing")].FailFirst = -1
+			for i := range c.Steps {
+				c.Steps[i].RetryLimit = -1
+			}
+			checkPrecondRetry(t, c)
+			return
 		}
 		checkPrecond(t, c, rapid.IntRange(0, 3).Draw(t, "met") == 0)
 	})
